@@ -248,14 +248,16 @@ def make_jobs(check, rnd):
     ctrl = ["ctrl", C16.frame(4, C16.settings([(1, 4096), (7, 16)])).hex(), False, "00"]
     for role in ("server", "client"):
         att, vic = ("c", "s") if role == "server" else ("s", "c")
-        pre = [] if role == "server" else [["h3req", 0, 0, "fin", False], ["deliver", 0], ["deliver", 0]]
+        # (the request must have reached the server before it can write on that stream: the pacer may hold it back, so
+        # timers are fired and the fair schedule runs for a few steps instead of counting deliveries)
+        pre = [] if role == "server" else [["h3req", 0, 0, "fin", False], ["timer", "c"], ["pump", 12]]
         blocked = [("headers", C16.frame(1, C16.blocked_section(role, "init")), True),
                    ("trailers", C16.frame(1, C16.block(C16.first_headers(role))) + C16.frame(1, C16.blocked_section(role, "hdrs")), True)]
         if role == "client":
             blocked.append(("push-promise", C16.frame(5, C16.vi(0) + C16.blocked_section("server", "init")), False))
         for name, data, fin in blocked:
-            sc = pre + [["raw", att] + ctrl, ["raw", att, "req", data.hex(), fin, ""], ["deliver", 0], ["deliver", 0],
-                        ["raw", att, "enc", C16.ENC_INS.hex(), False, "02"], ["deliver", 0], ["deliver", 0]]
+            sc = pre + [["raw", att] + ctrl, ["raw", att, "req", data.hex(), fin, ""], ["timer", att], ["pump", 12],
+                        ["raw", att, "enc", C16.ENC_INS.hex(), False, "02"], ["timer", att], ["pump", 12]]
             jobs.append({"cfg": {"alpn": ["h3"], "datagram": 65536}, "script": sc, "seed": 21, "hs_adv": False,
                          "h3": {vic: "h3", att: "raw"}, "profile": "h3-hostile", "what": "%s/blocked-%s-resumed" % (role, name)})
     return jobs
@@ -399,6 +401,14 @@ def run(check):
     rnd = random.Random(check.seed)
     jobs = make_jobs(check, rnd)
     results = runner.run_many(job_fn, jobs)          # forks: before any thread exists
+    # vacuity guard of the scripted "blocked section resumed" cases: the section must really have been delivered and decoded
+    want = {"headers": "HeadersReceived", "trailers": "HeadersReceived", "push-promise": "PushPromiseReceived"}
+    for j, r_ in zip(jobs, results):
+        w = j.get("what", "")
+        if "/blocked-" in w and w.endswith("-resumed") and not r_["meta"].get("raised_off"):
+            kind = want[w.split("/blocked-")[1][:-len("-resumed")]]
+            if kind not in r_["meta"].get("h3kinds", r_["meta"].get("kinds", [])) and not any("raise" in str(x) for x in r_["meta"].values()):
+                check.cov.setdefault("blocked_section_cases_without_the_event", []).append(w)
     t2 = time.time()
     with ThreadPoolExecutor(max_workers=1) as bg:
         fm = bg.submit(model)
